@@ -49,6 +49,8 @@ func (ir *IntrospectionResolver) resolveSchema(schema *ast.Schema, selectionSet 
 		switch f.Name {
 		case "__typename":
 			result[f.Alias] = "__Schema"
+		case "description":
+			result[f.Alias] = schema.Description
 		case "types":
 			types := []map[string]interface{}{}
 			for _, t := range schema.Types {
@@ -163,6 +165,13 @@ func (ir *IntrospectionResolver) resolveType(schema *ast.Schema, typ *ast.Type, 
 			result[f.Alias] = fields
 		case "description":
 			result[f.Alias] = namedType.Description
+		case "specifiedByURL":
+			result[f.Alias] = nil
+			if d := namedType.Directives.ForName("specifiedBy"); d != nil {
+				if url := d.Arguments.ForName("url"); url != nil {
+					result[f.Alias] = url.Value.Raw
+				}
+			}
 		case "interfaces":
 			// only objects and interfaces implement interfaces
 			if namedType.Kind != ast.Object && namedType.Kind != ast.Interface {
@@ -288,6 +297,8 @@ func (ir *IntrospectionResolver) resolveDirective(schema *ast.Schema, directive 
 			result[f.Alias] = directive.Description
 		case "locations":
 			result[f.Alias] = directive.Locations
+		case "isRepeatable":
+			result[f.Alias] = directive.IsRepeatable
 		case "args":
 			args := []map[string]interface{}{}
 			for _, arg := range directive.Arguments {
